@@ -61,8 +61,13 @@ func (p *players) Len() int {
 
 // Range loops through the player list.
 func (p *players) Range(fn func(p Player) bool) {
+	// Copy the players while holding the lock: the map itself
+	// must not be iterated after unlocking.
 	p.mu.RLock()
-	list := p.list
+	list := make([]*connectedPlayer, 0, len(p.list))
+	for _, player := range p.list {
+		list = append(list, player)
+	}
 	p.mu.RUnlock()
 	for _, player := range list {
 		if !fn(player) {
